@@ -1,5 +1,6 @@
 From Coq Require Import Extraction ExtrOcamlBasic.
-From PV Require Import Base.IO CtxWait.CtxWaitDefs.
+From PV Require Import Base.IO CtxWait.CtxWaitDefs CtxWait.CtxBarrierDefs.
 Extraction Language OCaml.
 Extraction "extracted/ctxwait.ml" io_witness init step quiescent settled ran cbs
-  pools started waiting active master epoch obs k_st k_dtd k_su k_tasks k_added k_att k_cb all_done p_quiet.
+  pools started waiting active master epoch obs k_st k_dtd k_su k_tasks k_added k_att k_cb all_done p_quiet
+  rinit rstep pc_of busy_of seen_active inner pcs bgen bcnt running.
